@@ -32,6 +32,7 @@ import (
 	"time"
 	"unicode/utf8"
 
+	internaljson "github.com/modelcontextprotocol/go-sdk/internal/json"
 	"github.com/modelcontextprotocol/go-sdk/internal/jsonrpc2"
 	"github.com/modelcontextprotocol/go-sdk/jsonrpc"
 )
@@ -96,7 +97,10 @@ func c19Flav(r *rand.Rand, flavor string) string {
 		return c19Pick(r, "data: {\"x\":1}", "\n\ndata: evil\n\n", "event: message\nid: 7\ndata: {}\n\n", ":comment", "retry: 10\n",
 			"id: 999\n\n", "data:", "data: a\ndata: b", "\r\n\r\ndata: x\r\n\r\n", "event:close\n\n", ": keep-alive\n\ndata: {\"jsonrpc\":\"2.0\"}\n\n")
 	case "large":
-		n := 8<<10 + r.IntN(120<<10)
+		n := 4<<10 + r.IntN(28<<10)
+		if c19Tier == "thorough" {
+			n = 8<<10 + r.IntN(120<<10)
+		}
 		if c19Tier == "thorough" && r.IntN(40) == 0 {
 			n = 1<<20 + r.IntN(3<<20)
 		}
@@ -123,26 +127,30 @@ func c19JS(r *rand.Rand, s string) string {
 		enc.Encode(s)
 		return strings.TrimRight(buf.String(), "\n")
 	default: // every non-ASCII rune as \uXXXX (surrogate pairs above the BMP)
-		var b strings.Builder
-		b.WriteByte('"')
+		const hex = "0123456789abcdef"
+		b := make([]byte, 0, len(s)+16)
+		u4 := func(c rune) {
+			b = append(b, '\\', 'u', hex[c>>12&15], hex[c>>8&15], hex[c>>4&15], hex[c&15])
+		}
+		b = append(b, '"')
 		for _, c := range s {
 			switch {
 			case c == '"' || c == '\\':
-				b.WriteByte('\\')
-				b.WriteRune(c)
+				b = append(b, '\\', byte(c))
 			case c < 0x20 || c == 0x7f:
-				fmt.Fprintf(&b, `\u%04x`, c)
+				u4(c)
 			case c < 0x7f:
-				b.WriteRune(c)
+				b = append(b, byte(c))
 			case c > 0xffff:
 				c -= 0x10000
-				fmt.Fprintf(&b, `\u%04x\u%04x`, 0xd800+(c>>10), 0xdc00+(c&0x3ff))
+				u4(0xd800 + (c >> 10))
+				u4(0xdc00 + (c & 0x3ff))
 			default:
-				fmt.Fprintf(&b, `\u%04x`, c)
+				u4(c)
 			}
 		}
-		b.WriteByte('"')
-		return b.String()
+		b = append(b, '"')
+		return string(b)
 	}
 }
 
@@ -225,7 +233,7 @@ func c19Payload(r *rand.Rand, class, flavor string) []byte {
 	b64 := func() string {
 		n := 1 + r.IntN(64)
 		if flavor == "large" {
-			n = 8<<10 + r.IntN(64<<10)
+			n = 4<<10 + r.IntN(28<<10)
 		}
 		raw := make([]byte, n)
 		for i := range raw {
@@ -483,4 +491,1730 @@ func c19Cls(m jsonrpc.Message, err error) string {
 		return "result"
 	}
 	return "reject"
+}
+
+// ---------------------------------------------------------------------------------------------
+// Table 1: messages x direction x framing.
+
+type c19MsgCase struct {
+	Dir     string `json:"dir"`
+	Kind    string `json:"kind"`
+	ID      string `json:"id"`
+	Method  string `json:"method"`
+	Payload string `json:"payload"`
+	Flavor  string `json:"flavor"`
+	Framing string `json:"framing"`
+}
+
+type c19MsgOut struct {
+	Cls    string    `json:"cls"`
+	Frame  string    `json:"frame"`
+	Evmeta bool      `json:"evmeta"`
+	F      c19Fields `json:"f"`
+}
+
+// c19Concrete is one concrete message: the original view, the Go value (dir enc) and wire bytes (dir dec).
+type c19Concrete struct {
+	view *c19View
+	msg  jsonrpc.Message
+	wire []byte
+}
+
+func c19MakeID(kind int, n int64, s string) jsonrpc.ID {
+	switch kind {
+	case 1:
+		return jsonrpc2.Int64ID(n)
+	case 2:
+		return jsonrpc2.StringID(s)
+	}
+	return jsonrpc.ID{}
+}
+
+// c19Wire lays out members (name, JSON text) as one JSON object without raw newlines
+// (newline-delimited and SSE framing forbid them; raw framing may add them).
+func c19Wire(r *rand.Rand, members [][2]string, shuffle bool, allowNL bool) []byte {
+	if shuffle {
+		r.Shuffle(len(members), func(i, j int) { members[i], members[j] = members[j], members[i] })
+	}
+	sep, col, pad := ",", ":", ""
+	switch r.IntN(4) {
+	case 1:
+		sep, col, pad = ", ", ": ", " "
+	case 2:
+		sep, col, pad = "\t,\t", " :\t", "\t"
+	case 3:
+		if allowNL {
+			sep, col, pad = ",\n  ", ": ", "\n"
+		}
+	}
+	var b strings.Builder
+	b.WriteString("{" + pad)
+	for i, m := range members {
+		if i > 0 {
+			b.WriteString(sep)
+		}
+		b.WriteString(`"` + m[0] + `"` + col + m[1])
+	}
+	b.WriteString(pad + "}")
+	return []byte(b.String())
+}
+
+func c19Concretise(r *rand.Rand, c c19MsgCase) c19Concrete {
+	v := &c19View{}
+	idKind, idN, idS := c19ID(r, c.ID, c.Flavor)
+	v.idKind, v.idStr = idKind, idS
+	if idKind == 1 {
+		v.idNum = new(big.Rat).SetInt64(idN)
+	}
+	id := c19MakeID(idKind, idN, idS)
+	members := [][2]string{{"jsonrpc", `"2.0"`}}
+	switch idKind {
+	case 1:
+		members = append(members, [2]string{"id", strconv.FormatInt(idN, 10)})
+	case 2:
+		members = append(members, [2]string{"id", c19JS(r, idS)})
+	}
+	payload := c19Payload(r, c.Payload, c.Flavor)
+	var msg jsonrpc.Message
+	switch c.Kind {
+	case "call", "notif":
+		v.typ, v.hasMethod = "request", true
+		switch c.Method {
+		case "std":
+			v.method = c19Pick(r, c19StdMethods...)
+		case "flavored":
+			v.method = "x/" + c19Flav(r, c.Flavor)
+		case "empty":
+			v.method = ""
+		}
+		v.params = payload
+		members = append(members, [2]string{"method", c19JS(r, v.method)})
+		if payload != nil {
+			members = append(members, [2]string{"params", string(payload)})
+		}
+		msg = &jsonrpc.Request{ID: id, Method: v.method, Params: json.RawMessage(payload)}
+	case "result":
+		v.typ, v.result = "response", payload
+		members = append(members, [2]string{"result", string(payload)})
+		msg = &jsonrpc.Response{ID: id, Result: json.RawMessage(payload)}
+	default: // error kinds
+		v.typ, v.hasErr = "response", true
+		code := c19Pick(r, c19Codes...)
+		text := c19Flav(r, c.Flavor)
+		if r.IntN(8) == 0 {
+			text = ""
+		}
+		we := &jsonrpc.Error{Code: code, Message: text, Data: json.RawMessage(payload)}
+		v.errCode, v.errMsg, v.errData = new(big.Rat).SetInt64(code), text, payload
+		em := [][2]string{{"code", strconv.FormatInt(code, 10)}, {"message", c19JS(r, text)}}
+		if payload != nil {
+			em = append(em, [2]string{"data", string(payload)})
+		}
+		members = append(members, [2]string{"error", string(c19Wire(r, em, true, false))})
+		switch c.Kind {
+		case "errwrapped": // a Go error wrapping a wire error that has data
+			we.Data = json.RawMessage(`{"detail":` + c19JS(r, c19Flav(r, c.Flavor)) + `}`)
+			outer := fmt.Errorf("%s: %w", c19Flav(r, c.Flavor), we)
+			v.errMsg, v.errData = outer.Error(), we.Data
+			msg = &jsonrpc.Response{ID: id, Error: outer}
+		case "errplain":
+			plain := errors.New(text)
+			v.errCode, v.errData = new(big.Rat), nil
+			msg = &jsonrpc.Response{ID: id, Error: plain}
+		default:
+			msg = &jsonrpc.Response{ID: id, Error: we}
+		}
+	}
+	return c19Concrete{view: v, msg: msg, wire: c19Wire(r, members, true, c.Framing == "raw")}
+}
+
+// --- newline-delimited framing through ioConn over pipes
+
+type c19ND struct {
+	a, b  *ioConn
+	p0w   *io.PipeWriter
+	toB   *io.PipeWriter // raw bytes for B's reader (A writes here as well)
+	lines chan []byte    // what B wrote, line by line
+}
+
+func c19NewND() *c19ND {
+	p0r, p0w := io.Pipe() // A's input: never written
+	p1r, p1w := io.Pipe() // A (or the harness) -> B
+	p2r, p2w := io.Pipe() // B -> harness
+	nd := &c19ND{p0w: p0w, toB: p1w, lines: make(chan []byte, 8)}
+	nd.a = c19NewIOConn(p0r, p1w)
+	nd.b = c19NewIOConn(p1r, p2w)
+	go func() {
+		defer close(nd.lines)
+		br := bufio.NewReaderSize(p2r, 1<<16)
+		for {
+			line, err := br.ReadBytes('\n')
+			if len(line) > 0 {
+				nd.lines <- line
+			}
+			if err != nil {
+				return
+			}
+		}
+	}()
+	return nd
+}
+
+func (nd *c19ND) close() {
+	nd.p0w.Close()
+	nd.a.Close()
+	nd.b.Close()
+}
+
+var c19SentinelWire = func(i int) []byte {
+	return []byte(fmt.Sprintf(`{"jsonrpc":"2.0","id":"sentinel-%d","method":"ping"}`, i))
+}
+
+func c19Sentinel(i int) *jsonrpc.Request {
+	return &jsonrpc.Request{ID: jsonrpc2.StringID(fmt.Sprintf("sentinel-%d", i)), Method: "ping"}
+}
+
+func c19IsSentinel(m jsonrpc.Message, i int) bool {
+	req, ok := m.(*jsonrpc.Request)
+	return ok && req.Method == "ping" && req.ID.Raw() == fmt.Sprintf("sentinel-%d", i) && len(req.Params) == 0
+}
+
+// c19NDEnc: A.Write(sentinel, m, sentinel) -> pipe -> B.Read x3.
+func c19NDEnc(m jsonrpc.Message) (got jsonrpc.Message, err error, frame string) {
+	nd := c19NewND()
+	defer nd.close()
+	ctx, cancel := context.WithTimeout(context.Background(), 20*time.Second)
+	defer cancel()
+	go func() {
+		for i, x := range []jsonrpc.Message{c19Sentinel(0), m, c19Sentinel(2)} {
+			if werr := nd.a.Write(ctx, x); werr != nil && i != 1 {
+				return
+			}
+		}
+	}()
+	frame = "ok"
+	for i := 0; i < 3; i++ {
+		x, rerr := nd.b.Read(ctx)
+		if i == 1 {
+			got, err = x, rerr
+		} else if rerr != nil || !c19IsSentinel(x, i) {
+			frame = "bad"
+		}
+	}
+	return
+}
+
+// c19NDDec: raw lines -> B.Read -> B.Write -> raw line, x3.
+func c19NDDec(w []byte) (got jsonrpc.Message, err error, out []byte, frame string) {
+	nd := c19NewND()
+	defer nd.close()
+	ctx, cancel := context.WithTimeout(context.Background(), 20*time.Second)
+	defer cancel()
+	go func() {
+		for _, x := range [][]byte{c19SentinelWire(0), w, c19SentinelWire(2)} {
+			if _, werr := nd.toB.Write(append(append([]byte{}, x...), '\n')); werr != nil {
+				return
+			}
+		}
+	}()
+	frame = "ok"
+	for i := 0; i < 3; i++ {
+		x, rerr := nd.b.Read(ctx)
+		var line []byte
+		if rerr == nil {
+			if werr := nd.b.Write(ctx, x); werr == nil {
+				select {
+				case line = <-nd.lines:
+				case <-ctx.Done():
+				}
+			} else if i == 1 {
+				rerr = werr
+			}
+		}
+		if i == 1 {
+			got, err, out = x, rerr, bytes.TrimRight(line, "\n")
+		} else if rerr != nil || !c19IsSentinel(x, i) || !c19JSONEq(bytes.TrimRight(line, "\n"), c19SentinelWire(i)) {
+			frame = "bad"
+		}
+	}
+	return
+}
+
+// --- SSE framing through writeEvent / scanEvents
+
+type c19RW struct {
+	buf bytes.Buffer
+	h   http.Header
+}
+
+func (w *c19RW) Header() http.Header {
+	if w.h == nil {
+		w.h = http.Header{}
+	}
+	return w.h
+}
+func (w *c19RW) Write(p []byte) (int, error) { return w.buf.Write(p) }
+func (w *c19RW) WriteHeader(int)             {}
+func (w *c19RW) Flush()                      {}
+
+// c19Chunk delivers its input in seeded chunk sizes.
+type c19Chunk struct {
+	r    *bytes.Reader
+	rnd  *rand.Rand
+	size int
+}
+
+func (c *c19Chunk) Read(p []byte) (int, error) {
+	n := c.size
+	if n == 0 {
+		n = 1 + c.rnd.IntN(97)
+	}
+	if n > len(p) {
+		n = len(p)
+	}
+	return c.r.Read(p[:n])
+}
+
+// c19SSE frames three payloads (sentinel, data, sentinel) and scans them back.
+func c19SSE(r *rand.Rand, data []byte) (got []byte, frame string, evmeta bool) {
+	rw := &c19RW{}
+	type ev struct{ name, id string }
+	var want []ev
+	payloads := [][]byte{c19SentinelWire(0), data, c19SentinelWire(2)}
+	for i, p := range payloads {
+		e := Event{Name: c19Pick(r, "message", "", "endpoint"), ID: c19Pick(r, "", fmt.Sprintf("%d_%d", r.IntN(1000), i), "s12_7"), Data: p}
+		want = append(want, ev{e.Name, e.ID})
+		if _, err := c19WriteEvent(rw, e); err != nil {
+			return nil, "bad", false
+		}
+	}
+	src := &c19Chunk{r: bytes.NewReader(rw.buf.Bytes()), rnd: r, size: c19Pick(r, 0, 1, 7, 4096, 1<<20)}
+	var evs []Event
+	ok := true
+	c19ScanEvents(src, func(e Event, err error) bool {
+		if err != nil {
+			ok = false
+			return false
+		}
+		evs = append(evs, Event{Name: e.Name, ID: e.ID, Data: append([]byte{}, e.Data...)})
+		return true
+	})
+	if !ok || len(evs) != 3 || !bytes.Equal(evs[0].Data, payloads[0]) || !bytes.Equal(evs[2].Data, payloads[2]) {
+		if len(evs) > 1 {
+			got = evs[1].Data
+		}
+		return got, "bad", false
+	}
+	evmeta = true
+	for i, e := range evs {
+		if e.Name != want[i].name || e.ID != want[i].id {
+			evmeta = false
+		}
+	}
+	return evs[1].Data, "ok", evmeta
+}
+
+func c19Trunc(b []byte) string {
+	if len(b) > 400 {
+		return string(b[:300]) + fmt.Sprintf("...(%d bytes)", len(b))
+	}
+	return string(b)
+}
+
+// c19RunMsg runs one message case on the real code.
+func c19RunMsg(r *rand.Rand, c c19MsgCase) (o c19MsgOut, in, out string) {
+	cc := c19Concretise(r, c)
+	o.Frame, o.Evmeta = "ok", true
+	var final *c19View
+	if c.Dir == "enc" {
+		var m2 jsonrpc.Message
+		var derr error
+		switch c.Framing {
+		case "raw":
+			b, err := jsonrpc.EncodeMessage(cc.msg)
+			if err != nil {
+				o.Cls = "reject"
+				return o, fmt.Sprintf("%#v", cc.msg), "encode: " + err.Error()
+			}
+			out = c19Trunc(b)
+			m2, derr = jsonrpc.DecodeMessage(b)
+		case "ndjson":
+			m2, derr, o.Frame = c19NDEnc(cc.msg)
+		case "sse":
+			b, err := jsonrpc.EncodeMessage(cc.msg)
+			if err != nil {
+				o.Cls = "reject"
+				return o, fmt.Sprintf("%#v", cc.msg), "encode: " + err.Error()
+			}
+			var data []byte
+			data, o.Frame, o.Evmeta = c19SSE(r, b)
+			out = c19Trunc(data)
+			m2, derr = jsonrpc.DecodeMessage(data)
+		}
+		o.Cls = c19Cls(m2, derr)
+		if derr == nil {
+			final = c19ViewOfMsg(m2)
+			if b, err := jsonrpc.EncodeMessage(m2); err == nil && out == "" {
+				out = c19Trunc(b)
+			}
+		} else {
+			out += " decode: " + derr.Error()
+		}
+		if b, err := jsonrpc.EncodeMessage(cc.msg); err == nil {
+			in = c19Trunc(b)
+		}
+		// a message of another Go type is not a version of the original at all
+		if final != nil && final.typ != cc.view.typ {
+			final = nil
+		}
+		o.F = c19Compare(cc.view, final)
+		return
+	}
+	// dir = dec
+	in = c19Trunc(cc.wire)
+	var m jsonrpc.Message
+	var derr error
+	var w2 []byte
+	switch c.Framing {
+	case "raw":
+		m, derr = jsonrpc.DecodeMessage(cc.wire)
+		if derr == nil {
+			w2, derr = jsonrpc.EncodeMessage(m)
+		}
+	case "ndjson":
+		m, derr, w2, o.Frame = c19NDDec(cc.wire)
+	case "sse":
+		var data []byte
+		data, o.Frame, o.Evmeta = c19SSE(r, cc.wire)
+		m, derr = jsonrpc.DecodeMessage(data)
+		if derr == nil {
+			w2, derr = jsonrpc.EncodeMessage(m)
+		}
+	}
+	o.Cls = c19Cls(m, derr)
+	if m != nil { // the class is that of the decoded message even if re-encoding failed
+		o.Cls = c19Cls(m, nil)
+	}
+	if derr == nil {
+		final = c19ViewOfWire(w2)
+		out = c19Trunc(w2)
+	} else {
+		out = "error: " + derr.Error()
+	}
+	o.F = c19Compare(cc.view, final)
+	return
+}
+
+// ---------------------------------------------------------------------------------------------
+// Table 2: raw wire shapes into DecodeMessage (classification, case sensitivity).
+
+type c19WireCase struct {
+	Ver    string `json:"ver"`
+	ID     string `json:"id"`
+	Method string `json:"method"`
+	Params string `json:"params"`
+	Result string `json:"result"`
+	Error  string `json:"error"`
+	Casing string `json:"casing"`
+}
+
+type c19WireOut struct {
+	Cls    string `json:"cls"`
+	Why    string `json:"why"`
+	ID     string `json:"id"`
+	Params bool   `json:"params"`
+	Result bool   `json:"result"`
+	Err    bool   `json:"err"`
+	Code   bool   `json:"code"`
+	Msg    bool   `json:"msg"`
+	Data   bool   `json:"data"`
+}
+
+// c19Miscase returns name in a spelling that differs only by letter case / Unicode case folding.
+func c19Miscase(r *rand.Rand, name string) string {
+	for {
+		var out string
+		switch r.IntN(4) {
+		case 0:
+			out = strings.ToUpper(name)
+		case 1:
+			out = strings.ToUpper(name[:1]) + name[1:]
+		case 2:
+			b := []byte(name)
+			for i := range b {
+				if r.IntN(2) == 0 {
+					b[i] = byte(strings.ToUpper(string(b[i]))[0])
+				}
+			}
+			out = string(b)
+		default: // folds that encoding/json's case-insensitive matching accepts
+			out = strings.NewReplacer("s", "ſ", "k", "K").Replace(name)
+		}
+		if out != name {
+			return out
+		}
+	}
+}
+
+func c19BuildWireShape(r *rand.Rand, c c19WireCase) (wire, sib []byte, code int64, text string) {
+	code = c19Pick(r, int64(-32601), -32000, 7, 1<<40)
+	text = c19Pick(r, "boom", "method not found", "x")
+	name := func(n string) string {
+		if c.Casing == n {
+			return c19Miscase(r, n)
+		}
+		return n
+	}
+	var ms, sm [][2]string // full / with the miscased member removed
+	add := func(n, val string) {
+		ms = append(ms, [2]string{name(n), val})
+		if c.Casing != n {
+			sm = append(sm, [2]string{n, val})
+		}
+	}
+	switch c.Ver {
+	case "2.0":
+		add("jsonrpc", `"2.0"`)
+	case "1.0":
+		add("jsonrpc", c19Pick(r, `"1.0"`, `"2"`, `"2.00"`, `""`, `" 2.0"`))
+	case "number":
+		add("jsonrpc", c19Pick(r, "2.0", "2", "true"))
+	}
+	switch c.ID {
+	case "null":
+		add("id", "null")
+	case "int":
+		add("id", strconv.FormatInt(c19Pick(r, int64(0), 1, -5, 123456789), 10))
+	case "str":
+		add("id", c19JS(r, c19Pick(r, "", "a", "1", "id-7")))
+	case "frac":
+		add("id", c19Pick(r, "1.5", "2.25", "-0.5", "1e-1"))
+	case "bool":
+		add("id", c19Pick(r, "true", "false"))
+	case "obj":
+		add("id", c19Pick(r, "{}", "[1]", `{"a":1}`, "[]"))
+	}
+	switch c.Method {
+	case "str":
+		add("method", c19JS(r, c19Pick(r, c19StdMethods...)))
+	case "empty":
+		add("method", `""`)
+	case "null":
+		add("method", "null")
+	case "number":
+		add("method", c19Pick(r, "5", "true", "{}", `["a"]`))
+	}
+	if c.Params == "obj" {
+		add("params", c19Pick(r, `{"a":1}`, `[1,2]`, `{}`))
+	}
+	switch c.Result {
+	case "obj":
+		add("result", c19Pick(r, `{"ok":true}`, `{}`, `[]`, `5`))
+	case "null":
+		add("result", "null")
+	}
+	switch c.Error {
+	case "null":
+		add("error", "null")
+	case "str":
+		add("error", c19Pick(r, `"oops"`, "5", `[1]`))
+	case "obj", "objdata":
+		var em, es [][2]string
+		addE := func(n, val string) {
+			full := "error." + n
+			if c.Casing == full {
+				em = append(em, [2]string{c19Miscase(r, n), val})
+			} else {
+				em = append(em, [2]string{n, val})
+				es = append(es, [2]string{n, val})
+			}
+		}
+		addE("code", strconv.FormatInt(code, 10))
+		addE("message", c19JS(r, text))
+		if c.Error == "objdata" {
+			addE("data", c19Pick(r, `{"d":1}`, `"x"`, `[1]`, `0`))
+		}
+		ms = append(ms, [2]string{name("error"), string(c19Wire(r, em, true, false))})
+		if c.Casing != "error" {
+			sm = append(sm, [2]string{"error", string(c19Wire(r, es, true, false))})
+		}
+	}
+	if r.IntN(2) == 0 { // same member order in both variants
+		for _, l := range []*[][2]string{&ms, &sm} {
+			for i, j := 0, len(*l)-1; i < j; i, j = i+1, j-1 {
+				(*l)[i], (*l)[j] = (*l)[j], (*l)[i]
+			}
+		}
+	}
+	seed := r.Uint64()
+	// same layout for both variants
+	wire = c19Wire(rand.New(rand.NewPCG(seed, 1)), ms, false, true)
+	sib = c19Wire(rand.New(rand.NewPCG(seed, 1)), sm, false, true)
+	return
+}
+
+func c19DecodeShape(w []byte, code int64, text string) (o c19WireOut) {
+	o.ID = "none"
+	defer func() {
+		if p := recover(); p != nil {
+			o = c19WireOut{Cls: "panic", Why: fmt.Sprint(p), ID: "none"}
+		}
+	}()
+	m, err := jsonrpc.DecodeMessage(w)
+	o.Cls = c19Cls(m, err)
+	if err != nil {
+		switch {
+		case errors.Is(err, jsonrpc2.ErrParse):
+			o.Why = "idtype"
+		case errors.Is(err, jsonrpc2.ErrInvalidRequest):
+			o.Why = "invalidreq"
+		case strings.Contains(err.Error(), "version tag"):
+			o.Why = "version"
+		default:
+			o.Why = "syntax"
+		}
+		return
+	}
+	idk := func(id jsonrpc.ID) string {
+		switch id.Raw().(type) {
+		case int64:
+			return "int"
+		case string:
+			return "str"
+		}
+		return "none"
+	}
+	switch m := m.(type) {
+	case *jsonrpc.Request:
+		o.ID, o.Params = idk(m.ID), len(m.Params) > 0
+	case *jsonrpc.Response:
+		o.ID, o.Result = idk(m.ID), len(m.Result) > 0
+		var we *jsonrpc.Error
+		if m.Error != nil && errors.As(m.Error, &we) {
+			o.Err, o.Code, o.Msg, o.Data = true, we.Code == code, we.Message == text, len(we.Data) > 0
+		}
+	}
+	return
+}
+
+// ---------------------------------------------------------------------------------------------
+// Table 3: MCP content kinds inside their containers (json.Marshal -> the SDK's UnmarshalJSON).
+
+type c19ValCase struct {
+	Cont   string `json:"cont"`
+	CKind  string `json:"ckind"`
+	Fill   string `json:"fill"`
+	Meta   string `json:"meta"`
+	Nested string `json:"nested"`
+	Arity  string `json:"arity"`
+	Flavor string `json:"flavor"`
+}
+
+type c19ValOut struct {
+	OK      bool     `json:"ok"`
+	Lost    []string `json:"lost"`
+	Missing []string `json:"missing"`
+}
+
+func c19Bytes(r *rand.Rand, flavor string) []byte {
+	n := 1 + r.IntN(48)
+	if flavor == "large" {
+		n = 4<<10 + r.IntN(28<<10)
+	}
+	b := make([]byte, n)
+	for i := range b {
+		b[i] = byte(r.IntN(256))
+	}
+	return b
+}
+
+func c19Meta(r *rand.Rand, class, flavor string) Meta {
+	switch class {
+	case "flat":
+		return Meta{"k": c19Flav(r, flavor), "n": 1.5, "b": true}
+	case "nested":
+		return Meta{"a": map[string]any{"b": []any{1.0, c19Flav(r, flavor), map[string]any{"c": nil}}}, "io.x/y": c19Flav(r, flavor), "": "empty key"}
+	}
+	return nil
+}
+
+func c19Annot(r *rand.Rand) *Annotations {
+	return &Annotations{Audience: []Role{"user", "assistant"}[:1+r.IntN(2)], LastModified: "2025-01-12T15:00:58Z", Priority: c19Pick(r, 0.25, 0.5, 1)}
+}
+
+func c19Content(r *rand.Rand, kind, fill, meta, nested, flavor string) Content {
+	full := fill == "full"
+	m := c19Meta(r, meta, flavor)
+	s := func() string { return c19Flav(r, flavor) }
+	switch kind {
+	case "text":
+		c := &TextContent{Meta: m}
+		if full {
+			c.Text, c.Annotations = s(), c19Annot(r)
+		}
+		return c
+	case "image":
+		c := &ImageContent{Meta: m}
+		if full {
+			c.Data, c.MIMEType, c.Annotations = c19Bytes(r, flavor), "image/png", c19Annot(r)
+		}
+		return c
+	case "audio":
+		c := &AudioContent{Meta: m}
+		if full {
+			c.Data, c.MIMEType, c.Annotations = c19Bytes(r, flavor), "audio/wav", c19Annot(r)
+		}
+		return c
+	case "resource_link":
+		c := &ResourceLink{Meta: m}
+		if full {
+			sz := r.Int64N(1 << 40)
+			c.URI, c.Name, c.Title, c.Description, c.MIMEType, c.Size = "file:///"+s(), s(), s(), s(), "text/plain", &sz
+			c.Annotations = c19Annot(r)
+			c.Icons = []Icon{{Source: "https://example.com/i.png", MIMEType: "image/png", Sizes: []string{"48x48", "any"}, Theme: "dark"}}
+		}
+		return c
+	case "resource_text":
+		rc := &ResourceContents{URI: "file:///e.txt"}
+		c := &EmbeddedResource{Resource: rc, Meta: m}
+		if full {
+			rc.Text, rc.MIMEType, rc.Meta = s(), "text/plain", c19Meta(r, "flat", flavor)
+			c.Annotations = c19Annot(r)
+		}
+		return c
+	case "resource_blob":
+		rc := &ResourceContents{URI: "file:///e.bin", Blob: []byte{}}
+		c := &EmbeddedResource{Resource: rc, Meta: m}
+		if full {
+			rc.Blob, rc.MIMEType = c19Bytes(r, flavor), "application/octet-stream"
+			c.Annotations = c19Annot(r)
+		}
+		return c
+	case "tool_use":
+		c := &ToolUseContent{Meta: m}
+		if full {
+			c.ID, c.Name = "call-"+s(), "tool_"+strconv.Itoa(r.IntN(100))
+			c.Input = map[string]any{"q": s(), "n": 3.0, "deep": map[string]any{"l": []any{true, nil}}}
+		}
+		return c
+	case "tool_result":
+		c := &ToolResultContent{Meta: m}
+		switch nested {
+		case "empty":
+			c.Content = []Content{}
+		case "one":
+			c.Content = []Content{c19Content(r, "text", "full", "flat", "na", flavor)}
+		case "mixed":
+			c.Content = []Content{c19Content(r, "image", "full", "none", "na", flavor), c19Content(r, "resource_text", "full", "nested", "na", flavor),
+				c19Content(r, "audio", "full", "flat", "na", flavor), c19Content(r, "resource_link", "full", "none", "na", flavor)}
+		case "zeros":
+			c.Content = []Content{c19Content(r, "text", "zero", "none", "na", flavor), c19Content(r, "image", "zero", "none", "na", flavor),
+				c19Content(r, "audio", "zero", "flat", "na", flavor)}
+		}
+		if full {
+			c.ToolUseID, c.IsError = "call-"+s(), true
+			c.StructuredContent = c19Pick[any](r, map[string]any{"v": s()}, []any{1.0, "x"}, s(), 42.0)
+		}
+		return c
+	}
+	panic("content kind " + kind)
+}
+
+var (
+	c19TContent  = reflect.TypeOf((*Content)(nil)).Elem()
+	c19TContents = reflect.TypeOf([]Content(nil))
+)
+
+func c19IsEmpty(v reflect.Value) bool {
+	switch v.Kind() {
+	case reflect.Pointer, reflect.Interface:
+		return v.IsNil()
+	case reflect.Slice, reflect.Map, reflect.String:
+		return v.Len() == 0
+	}
+	return v.IsZero()
+}
+
+// c19Diff records the names of members of a that are not found equal in b.
+func c19Diff(prefix string, a, b reflect.Value, lost map[string]bool) {
+	if a.Type() != b.Type() {
+		lost[prefix+"(type)"] = true
+		return
+	}
+	switch {
+	case a.Type() == c19TContents:
+		if a.Len() != b.Len() {
+			lost[prefix+"(len)"] = true
+			return
+		}
+		for i := 0; i < a.Len(); i++ {
+			c19Diff(fmt.Sprintf("%s[%d]", prefix, i), a.Index(i), b.Index(i), lost)
+		}
+	case a.Type() == c19TContent:
+		if a.IsNil() || b.IsNil() {
+			if a.IsNil() != b.IsNil() {
+				lost[prefix] = true
+			}
+			return
+		}
+		ea, eb := a.Elem(), b.Elem()
+		if ea.Type() != eb.Type() {
+			lost[prefix+"(kind)"] = true
+			return
+		}
+		c19Diff(prefix, ea, eb, lost)
+	case a.Kind() == reflect.Pointer && a.Type().Elem().Kind() == reflect.Struct:
+		if a.IsNil() || b.IsNil() {
+			if a.IsNil() != b.IsNil() {
+				lost[prefix] = true
+			}
+			return
+		}
+		c19Diff(prefix, a.Elem(), b.Elem(), lost)
+	case a.Kind() == reflect.Slice && a.Type().Elem().Kind() == reflect.Pointer && a.Type().Elem().Elem().Kind() == reflect.Struct:
+		if a.Len() != b.Len() {
+			lost[prefix+"(len)"] = true
+			return
+		}
+		for i := 0; i < a.Len(); i++ {
+			c19Diff(fmt.Sprintf("%s[%d]", prefix, i), a.Index(i), b.Index(i), lost)
+		}
+	case a.Kind() == reflect.Struct:
+		t := a.Type()
+		for i := 0; i < t.NumField(); i++ {
+			if t.Field(i).PkgPath != "" {
+				continue
+			}
+			c19Diff(prefix+"."+t.Field(i).Name, a.Field(i), b.Field(i), lost)
+		}
+	default:
+		if c19IsEmpty(a) && c19IsEmpty(b) {
+			return
+		}
+		ja, e1 := json.Marshal(a.Interface())
+		jb, e2 := json.Marshal(b.Interface())
+		if e1 != nil || e2 != nil || !c19JSONEq(ja, jb) {
+			lost[prefix] = true
+		}
+	}
+}
+
+// c19Missing lists required members of content objects that are absent or null in the encoding.
+func c19Missing(enc []byte) []string {
+	dec := json.NewDecoder(bytes.NewReader(enc))
+	dec.UseNumber()
+	var v any
+	if dec.Decode(&v) != nil {
+		return []string{"(invalid json)"}
+	}
+	miss := map[string]bool{}
+	var walk func(any)
+	walk = func(x any) {
+		switch x := x.(type) {
+		case []any:
+			for _, e := range x {
+				walk(e)
+			}
+		case map[string]any:
+			nonnull := func(k string) bool { w, ok := x[k]; return ok && w != nil }
+			switch x["type"] {
+			case "text":
+				if !nonnull("text") {
+					miss["text.text"] = true
+				}
+			case "image", "audio":
+				if !nonnull("data") {
+					miss[x["type"].(string)+".data"] = true
+				}
+			case "tool_result":
+				if _, ok := x["content"].([]any); !ok {
+					miss["tool_result.content"] = true
+				}
+			case "resource":
+				if res, ok := x["resource"].(map[string]any); !ok {
+					miss["resource.resource"] = true
+				} else if res["text"] == nil && res["blob"] == nil {
+					miss["resource.text|blob"] = true
+				}
+			}
+			for k, e := range x {
+				if k != "_meta" && k != "structuredContent" && k != "input" {
+					walk(e)
+				}
+			}
+		}
+	}
+	walk(v)
+	out := []string{}
+	for k := range miss {
+		out = append(out, k)
+	}
+	sort.Strings(out)
+	return out
+}
+
+func c19RunVal(r *rand.Rand, c c19ValCase) (o c19ValOut, enc string) {
+	o.Lost, o.Missing = []string{}, []string{}
+	item := func() Content { return c19Content(r, c.CKind, c.Fill, c.Meta, c.Nested, c.Flavor) }
+	var list []Content
+	switch c.Arity {
+	case "empty":
+		list = []Content{}
+	case "one":
+		list = []Content{item()}
+	case "two":
+		list = []Content{item(), c19Content(r, "text", "full", "none", "na", c.Flavor)}
+	}
+	role := c19Pick(r, Role("user"), Role("assistant"))
+	var a, b any
+	switch c.Cont {
+	case "calltool":
+		x := &CallToolResult{Content: list}
+		if c.Fill == "full" {
+			x.IsError, x.StructuredContent, x.Meta = true, map[string]any{"s": c19Flav(r, c.Flavor)}, c19Meta(r, "flat", c.Flavor)
+		}
+		a, b = x, &CallToolResult{}
+	case "prompt":
+		a = &GetPromptResult{Description: c19Flav(r, c.Flavor), Messages: []*PromptMessage{{Role: role, Content: item()}}}
+		b = &GetPromptResult{}
+	case "sampling":
+		a, b = &SamplingMessage{Role: role, Content: item()}, &SamplingMessage{}
+	case "samplingv2":
+		a, b = &SamplingMessageV2{Role: role, Content: list}, &SamplingMessageV2{}
+	case "createmsg":
+		a, b = &CreateMessageResult{Model: "m-1", Role: role, StopReason: "endTurn", Content: item(), Meta: c19Meta(r, c.Meta, c.Flavor)}, &CreateMessageResult{}
+	case "createmsgtools":
+		a, b = &CreateMessageWithToolsResult{Model: "m-1", Role: role, StopReason: "toolUse", Content: list}, &CreateMessageWithToolsResult{}
+	}
+	data, err := json.Marshal(a)
+	if err != nil {
+		return o, "marshal: " + err.Error()
+	}
+	enc = c19Trunc(data)
+	o.Missing = c19Missing(data)
+	// the path by which a received result / message is decoded (jsonrpc2 AsyncCall.Await, methodInfo.unmarshalParams):
+	// internal/json dispatching to the type's UnmarshalJSON
+	if err := internaljson.Unmarshal(data, b); err != nil {
+		return o, enc + " unmarshal: " + err.Error()
+	}
+	o.OK = true
+	lost := map[string]bool{}
+	c19Diff("", reflect.ValueOf(a), reflect.ValueOf(b), lost)
+	for k := range lost {
+		o.Lost = append(o.Lost, k)
+	}
+	sort.Strings(o.Lost)
+	return
+}
+
+// ---------------------------------------------------------------------------------------------
+// Table 4: required members in the bytes that real server / client sessions put on the pipe.
+
+type c19ReqCase struct {
+	Type  string `json:"type"`
+	Fill  string `json:"fill"`
+	Proto string `json:"proto"`
+}
+
+type c19ReqOut struct {
+	Sent    string `json:"sent"`
+	Present bool   `json:"present"`
+	Nonnull bool   `json:"nonnull"`
+}
+
+// c19Tee records everything written before passing it on.
+type c19Tee struct {
+	mu  sync.Mutex
+	w   io.WriteCloser
+	buf bytes.Buffer
+}
+
+func (t *c19Tee) Write(p []byte) (int, error) {
+	t.mu.Lock()
+	t.buf.Write(p)
+	t.mu.Unlock()
+	return t.w.Write(p)
+}
+func (t *c19Tee) Close() error { return t.w.Close() }
+func (t *c19Tee) mark() int {
+	t.mu.Lock()
+	defer t.mu.Unlock()
+	return t.buf.Len()
+}
+
+// responseSince returns the first response (no "method" member) written after mark.
+func (t *c19Tee) responseSince(mark int) map[string]json.RawMessage {
+	t.mu.Lock()
+	data := append([]byte{}, t.buf.Bytes()[mark:]...)
+	t.mu.Unlock()
+	for _, line := range bytes.Split(data, []byte("\n")) {
+		var top map[string]json.RawMessage
+		if len(bytes.TrimSpace(line)) == 0 || json.Unmarshal(line, &top) != nil {
+			continue
+		}
+		if _, isReq := top["method"]; !isReq {
+			return top
+		}
+	}
+	return nil
+}
+
+type c19Sess struct {
+	cs       *ClientSession
+	ss       *ServerSession
+	srv, cli *c19Tee // bytes sent by the server / by the client
+	mu       sync.Mutex
+	tool     map[string]*CallToolResult
+	prompt   map[string]*GetPromptResult
+	res      map[string]*ReadResourceResult
+	compl    map[string]*CompleteResult
+	sample   map[string]*CreateMessageWithToolsResult
+	close    func()
+}
+
+func c19NewSess(ctx context.Context, proto string, features bool) (*c19Sess, error) {
+	s := &c19Sess{tool: map[string]*CallToolResult{}, prompt: map[string]*GetPromptResult{}, res: map[string]*ReadResourceResult{},
+		compl: map[string]*CompleteResult{}, sample: map[string]*CreateMessageWithToolsResult{}}
+	sopts := &ServerOptions{}
+	if features {
+		sopts.CompletionHandler = func(_ context.Context, req *CompleteRequest) (*CompleteResult, error) {
+			s.mu.Lock()
+			defer s.mu.Unlock()
+			return s.compl[req.Params.Argument.Value], nil
+		}
+	}
+	server := NewServer(&Implementation{Name: "c19-server", Version: "1"}, sopts)
+	copts := &ClientOptions{}
+	if features {
+		copts.CreateMessageWithToolsHandler = func(_ context.Context, req *CreateMessageWithToolsRequest) (*CreateMessageWithToolsResult, error) {
+			s.mu.Lock()
+			defer s.mu.Unlock()
+			return s.sample[req.Params.SystemPrompt], nil
+		}
+	}
+	client := NewClient(&Implementation{Name: "c19-client", Version: "1"}, copts)
+	if features {
+		server.AddTool(&Tool{Name: "emit", InputSchema: map[string]any{"type": "object"}}, func(_ context.Context, req *CallToolRequest) (*CallToolResult, error) {
+			var args struct{ K string }
+			json.Unmarshal(req.Params.Arguments, &args)
+			s.mu.Lock()
+			defer s.mu.Unlock()
+			return s.tool[args.K], nil
+		})
+		server.AddPrompt(&Prompt{Name: "emit"}, func(_ context.Context, req *GetPromptRequest) (*GetPromptResult, error) {
+			s.mu.Lock()
+			defer s.mu.Unlock()
+			return s.prompt[req.Params.Arguments["k"]], nil
+		})
+		server.AddResource(&Resource{Name: "one", URI: "c19://fixed"}, func(context.Context, *ReadResourceRequest) (*ReadResourceResult, error) {
+			return &ReadResourceResult{Contents: []*ResourceContents{{URI: "c19://fixed", Text: "x"}}}, nil
+		})
+		server.AddResourceTemplate(&ResourceTemplate{Name: "emit", URITemplate: "c19://item/{k}"}, func(_ context.Context, req *ReadResourceRequest) (*ReadResourceResult, error) {
+			s.mu.Lock()
+			defer s.mu.Unlock()
+			return s.res[strings.TrimPrefix(req.Params.URI, "c19://item/")], nil
+		})
+		client.AddRoots(&Root{URI: "file:///root", Name: "root"})
+	}
+	c2sR, c2sW := io.Pipe()
+	s2cR, s2cW := io.Pipe()
+	s.srv, s.cli = &c19Tee{w: s2cW}, &c19Tee{w: c2sW}
+	var err error
+	if s.ss, err = server.Connect(ctx, &IOTransport{Reader: c2sR, Writer: s.srv}, nil); err != nil {
+		return nil, err
+	}
+	var co *ClientSessionOptions
+	if proto != "latest" {
+		co = &ClientSessionOptions{ProtocolVersion: proto}
+	}
+	if s.cs, err = client.Connect(ctx, &IOTransport{Reader: s2cR, Writer: s.cli}, co); err != nil {
+		return nil, err
+	}
+	s.close = func() {
+		s.cs.Close()
+		s.ss.Close()
+	}
+	return s, nil
+}
+
+// c19Member looks up a dotted path (array index allowed) in a JSON value.
+func c19Member(raw json.RawMessage, path string) (present, nonnull bool) {
+	cur := raw
+	for _, step := range strings.Split(path, ".") {
+		if i, err := strconv.Atoi(step); err == nil {
+			var arr []json.RawMessage
+			if json.Unmarshal(cur, &arr) != nil || i >= len(arr) {
+				return false, false
+			}
+			cur = arr[i]
+			continue
+		}
+		var obj map[string]json.RawMessage
+		if json.Unmarshal(cur, &obj) != nil {
+			return false, false
+		}
+		next, ok := obj[step]
+		if !ok {
+			return false, false
+		}
+		cur = next
+	}
+	return true, string(bytes.TrimSpace(cur)) != "null"
+}
+
+func c19RunReq(ctx context.Context, sess map[string]*c19Sess, c c19ReqCase, n int) (o c19ReqOut, sent string) {
+	o.Sent = "none"
+	key := fmt.Sprintf("k%d", n)
+	feat := "bare"
+	isList := strings.HasPrefix(c.Type, "List")
+	if !isList || c.Fill == "one" {
+		feat = "full"
+	}
+	s := sess[c.Proto+"/"+feat]
+	tee, path := s.srv, ""
+	oneText := []Content{&TextContent{Text: "x"}}
+	pickList := func(nilv, empty, one any) any {
+		switch c.Fill {
+		case "nil":
+			return nilv
+		case "empty":
+			return empty
+		}
+		return one
+	}
+	var call func()
+	emitTool := func(res *CallToolResult, p string) {
+		s.mu.Lock()
+		s.tool[key] = res
+		s.mu.Unlock()
+		path = p
+		call = func() { s.cs.CallTool(ctx, &CallToolParams{Name: "emit", Arguments: map[string]any{"K": key}}) }
+	}
+	switch c.Type {
+	case "ListToolsResult":
+		path, call = "tools", func() { s.cs.ListTools(ctx, nil) }
+	case "ListPromptsResult":
+		path, call = "prompts", func() { s.cs.ListPrompts(ctx, nil) }
+	case "ListResourcesResult":
+		path, call = "resources", func() { s.cs.ListResources(ctx, nil) }
+	case "ListResourceTemplatesResult":
+		path, call = "resourceTemplates", func() { s.cs.ListResourceTemplates(ctx, nil) }
+	case "ListRootsResult":
+		tee, path, call = s.cli, "roots", func() { s.ss.ListRoots(ctx, nil) }
+	case "CallToolResult":
+		emitTool(&CallToolResult{Content: pickList([]Content(nil), []Content{}, oneText).([]Content)}, "content")
+	case "GetPromptResult":
+		one := []*PromptMessage{{Role: "user", Content: &TextContent{Text: "x"}}}
+		s.mu.Lock()
+		s.prompt[key] = &GetPromptResult{Description: "d", Messages: pickList([]*PromptMessage(nil), []*PromptMessage{}, one).([]*PromptMessage)}
+		s.mu.Unlock()
+		path, call = "messages", func() { s.cs.GetPrompt(ctx, &GetPromptParams{Name: "emit", Arguments: map[string]string{"k": key}}) }
+	case "ReadResourceResult":
+		one := []*ResourceContents{{URI: "c19://item/" + key, Text: "x"}}
+		s.mu.Lock()
+		s.res[key] = &ReadResourceResult{Contents: pickList([]*ResourceContents(nil), []*ResourceContents{}, one).([]*ResourceContents)}
+		s.mu.Unlock()
+		path, call = "contents", func() { s.cs.ReadResource(ctx, &ReadResourceParams{URI: "c19://item/" + key}) }
+	case "CompleteResult":
+		s.mu.Lock()
+		s.compl[key] = &CompleteResult{Completion: CompletionResultDetails{Values: pickList([]string(nil), []string{}, []string{"v"}).([]string)}}
+		s.mu.Unlock()
+		path, call = "completion.values", func() {
+			s.cs.Complete(ctx, &CompleteParams{Ref: &CompleteReference{Type: "ref/prompt", Name: "emit"}, Argument: CompleteParamsArgument{Name: "k", Value: key}})
+		}
+	case "CreateMessageWithToolsResult":
+		s.mu.Lock()
+		s.sample[key] = &CreateMessageWithToolsResult{Model: "m", Role: "assistant", Content: pickList([]Content(nil), []Content{}, oneText).([]Content)}
+		s.mu.Unlock()
+		tee, path, call = s.cli, "content", func() {
+			s.ss.CreateMessageWithTools(ctx, &CreateMessageWithToolsParams{MaxTokens: 5, SystemPrompt: key,
+				Messages: []*SamplingMessageV2{{Role: "user", Content: oneText}}})
+		}
+	case "TextContent":
+		emitTool(&CallToolResult{Content: []Content{&TextContent{Text: pickList("", "", "x").(string)}}}, "content.0.text")
+	case "ImageContent":
+		emitTool(&CallToolResult{Content: []Content{&ImageContent{MIMEType: "image/png", Data: pickList([]byte(nil), []byte{}, []byte{1, 2}).([]byte)}}}, "content.0.data")
+	case "AudioContent":
+		emitTool(&CallToolResult{Content: []Content{&AudioContent{MIMEType: "audio/wav", Data: pickList([]byte(nil), []byte{}, []byte{1, 2}).([]byte)}}}, "content.0.data")
+	case "ToolResultContent":
+		emitTool(&CallToolResult{Content: []Content{&ToolResultContent{ToolUseID: "u", Content: pickList([]Content(nil), []Content{}, oneText).([]Content)}}}, "content.0.content")
+	default:
+		panic("req type " + c.Type)
+	}
+	mark := tee.mark()
+	call()
+	resp := tee.responseSince(mark)
+	if resp == nil {
+		return o, ""
+	}
+	b, _ := json.Marshal(resp)
+	sent = c19Trunc(b)
+	if res, ok := resp["result"]; ok {
+		o.Sent = "result"
+		o.Present, o.Nonnull = c19Member(res, path)
+	} else if _, ok := resp["error"]; ok {
+		o.Sent = "error"
+	}
+	return
+}
+
+// ---------------------------------------------------------------------------------------------
+// Table 5: case sensitivity of the decoders of MCP values (params on the server, content,
+// results on the client).  A member whose name differs in letter case must be treated as absent.
+
+type c19VcCase struct {
+	Target string `json:"target"`
+	Member string `json:"member"`
+}
+
+type c19VcOut struct {
+	Same     bool `json:"same"`     // decoding the miscased variant == decoding with the member removed
+	Accepted bool `json:"accepted"` // the variant decoded without error
+}
+
+var c19VcBase = map[string][][2]string{
+	"params:tools/call":             {{"name", `"emit"`}, {"arguments", `{"a":1}`}, {"_meta", `{"progressToken":"p1"}`}},
+	"params:prompts/get":            {{"name", `"emit"`}, {"arguments", `{"k":"v"}`}, {"_meta", `{"x":1}`}},
+	"params:resources/read":         {{"uri", `"file:///x"`}, {"_meta", `{"x":1}`}},
+	"params:initialize":             {{"protocolVersion", `"2025-11-25"`}, {"capabilities", `{"roots":{"listChanged":true}}`}, {"clientInfo", `{"name":"c","version":"1"}`}},
+	"params:completion/complete":    {{"ref", `{"type":"ref/prompt","name":"p"}`}, {"argument", `{"name":"a","value":"v"}`}, {"context", `{"arguments":{"x":"y"}}`}},
+	"params:notifications/progress": {{"progressToken", `"p1"`}, {"progress", `0.5`}, {"total", `2`}, {"message", `"half"`}},
+	"params:logging/setLevel":       {{"level", `"debug"`}},
+	"content:text":                  {{"type", `"text"`}, {"text", `"hello"`}, {"_meta", `{"m":1}`}, {"annotations", `{"priority":0.5}`}},
+	"content:image":                 {{"type", `"image"`}, {"data", `"AQID"`}, {"mimeType", `"image/png"`}, {"_meta", `{"m":1}`}},
+	"content:resource":              {{"type", `"resource"`}, {"resource", `{"uri":"file:///x","text":"t"}`}, {"annotations", `{"priority":0.5}`}},
+	"content:tool_result":           {{"type", `"tool_result"`}, {"toolUseId", `"u1"`}, {"content", `[{"type":"text","text":"n"}]`}, {"isError", `true`}, {"structuredContent", `{"s":1}`}},
+	"result:CallToolResult":         {{"content", `[{"type":"text","text":"hello"}]`}, {"isError", `true`}, {"structuredContent", `{"s":1}`}, {"_meta", `{"m":1}`}},
+	"result:GetPromptResult":        {{"messages", `[{"role":"user","content":{"type":"text","text":"hi"}}]`}, {"description", `"d"`}, {"_meta", `{"m":1}`}},
+	"result:ReadResourceResult":     {{"contents", `[{"uri":"c19://x","text":"t"}]`}, {"_meta", `{"m":1}`}},
+	"result:ListToolsResult":        {{"tools", `[{"name":"t1","inputSchema":{"type":"object"}}]`}, {"nextCursor", `"c2"`}, {"_meta", `{"m":1}`}},
+	"result:ListPromptsResult":      {{"prompts", `[{"name":"p1"}]`}, {"nextCursor", `"c2"`}},
+	"result:ListResourcesResult":    {{"resources", `[{"name":"r1","uri":"file:///r"}]`}, {"nextCursor", `"c2"`}},
+	"result:CompleteResult":         {{"completion", `{"values":["a"],"total":1}`}, {"_meta", `{"m":1}`}},
+}
+
+// c19Peer is a scripted raw server for a real ClientSession: it answers initialize and then
+// replies to every call with the JSON text in `next`.
+type c19Peer struct {
+	cs   *ClientSession
+	mu   sync.Mutex
+	next string
+}
+
+func c19NewPeer(ctx context.Context) (*c19Peer, error) {
+	p := &c19Peer{}
+	c2sR, c2sW := io.Pipe()
+	s2cR, s2cW := io.Pipe()
+	go func() {
+		br := bufio.NewReaderSize(c2sR, 1<<16)
+		for {
+			line, err := br.ReadBytes('\n')
+			if err != nil {
+				return
+			}
+			var req struct {
+				ID     json.RawMessage `json:"id"`
+				Method string          `json:"method"`
+			}
+			if json.Unmarshal(line, &req) != nil || len(req.ID) == 0 {
+				continue
+			}
+			res := `{}`
+			if req.Method == "initialize" {
+				res = `{"protocolVersion":"2025-11-25","capabilities":{"tools":{},"prompts":{},"resources":{},"completions":{},"logging":{}},"serverInfo":{"name":"peer","version":"1"}}`
+			} else {
+				p.mu.Lock()
+				res = p.next
+				p.mu.Unlock()
+			}
+			if _, err := s2cW.Write([]byte(`{"jsonrpc":"2.0","id":` + string(req.ID) + `,"result":` + res + "}\n")); err != nil {
+				return
+			}
+		}
+	}()
+	client := NewClient(&Implementation{Name: "c19-client", Version: "1"}, nil)
+	cs, err := client.Connect(ctx, &IOTransport{Reader: s2cR, Writer: c2sW}, &ClientSessionOptions{ProtocolVersion: c19Proto2025})
+	if err != nil {
+		return nil, err
+	}
+	p.cs = cs
+	return p, nil
+}
+
+func (p *c19Peer) result(ctx context.Context, typ, res string) (any, error) {
+	p.mu.Lock()
+	p.next = res
+	p.mu.Unlock()
+	switch typ {
+	case "CallToolResult":
+		return p.cs.CallTool(ctx, &CallToolParams{Name: "t1"})
+	case "GetPromptResult":
+		return p.cs.GetPrompt(ctx, &GetPromptParams{Name: "p1"})
+	case "ReadResourceResult":
+		return p.cs.ReadResource(ctx, &ReadResourceParams{URI: "c19://x"})
+	case "ListToolsResult":
+		return p.cs.ListTools(ctx, &ListToolsParams{Cursor: "c1"})
+	case "ListPromptsResult":
+		return p.cs.ListPrompts(ctx, &ListPromptsParams{Cursor: "c1"})
+	case "ListResourcesResult":
+		return p.cs.ListResources(ctx, &ListResourcesParams{Cursor: "c1"})
+	case "CompleteResult":
+		return p.cs.Complete(ctx, &CompleteParams{Ref: &CompleteReference{Type: "ref/prompt", Name: "p"}, Argument: CompleteParamsArgument{Name: "a", Value: "v"}})
+	}
+	return nil, fmt.Errorf("result type %s", typ)
+}
+
+func c19RunVc(ctx context.Context, r *rand.Rand, peer *c19Peer, c c19VcCase) (o c19VcOut, variant string) {
+	base, ok := c19VcBase[c.Target]
+	if !ok {
+		panic("vc target " + c.Target)
+	}
+	var full, sib [][2]string
+	found := false
+	for _, m := range base {
+		if m[0] == c.Member {
+			full = append(full, [2]string{c19Miscase(r, m[0]), m[1]})
+			found = true
+		} else {
+			full = append(full, m)
+			sib = append(sib, m)
+		}
+	}
+	if !found {
+		panic("vc member " + c.Target + "." + c.Member)
+	}
+	seed := r.Uint64()
+	jv := c19Wire(rand.New(rand.NewPCG(seed, 2)), full, false, false)
+	js := c19Wire(rand.New(rand.NewPCG(seed, 2)), sib, false, false)
+	variant = string(jv)
+	decode := func(j []byte) (v any, err error) {
+		defer func() {
+			if p := recover(); p != nil {
+				v, err = nil, fmt.Errorf("panic: %v", p)
+			}
+		}()
+		kind, name, _ := strings.Cut(c.Target, ":")
+		switch kind {
+		case "params":
+			if _, isServer := serverMethodInfos[name]; isServer {
+				return c19ServerParams(name, j)
+			}
+			return c19ClientParams(name, j)
+		case "content":
+			return c19UnmarshalContent(j)
+		case "result":
+			return peer.result(ctx, name, string(j))
+		}
+		return nil, fmt.Errorf("target %s", c.Target)
+	}
+	v1, e1 := decode(jv)
+	v2, e2 := decode(js)
+	o.Accepted = e1 == nil
+	if e1 != nil || e2 != nil {
+		o.Same = e1 != nil && e2 != nil
+		return
+	}
+	j1, _ := json.Marshal(v1)
+	j2, _ := json.Marshal(v2)
+	o.Same = reflect.DeepEqual(v1, v2) && bytes.Equal(j1, j2)
+	return
+}
+
+// ---------------------------------------------------------------------------------------------
+// Arbitrary and mutated bytes into every decoder: the outcome must be a value or an error.
+
+type c19FuzzOut struct {
+	K      string `json:"k"`
+	Dec    string `json:"dec"`
+	Gen    string `json:"gen"`
+	N      int    `json:"n"`
+	Values int    `json:"values"`
+	Errors int    `json:"errors"`
+	Panics int    `json:"panics"`
+	Sample string `json:"sample"` // first panicking input (quoted, truncated) and the panic value
+}
+
+var c19Corpus = []string{
+	`{"jsonrpc":"2.0","id":1,"method":"tools/call","params":{"name":"t","arguments":{"a":[1,2,{"b":null}]},"_meta":{"progressToken":7}}}`,
+	`{"jsonrpc":"2.0","method":"notifications/progress","params":{"progressToken":"p","progress":0.5}}`,
+	`{"jsonrpc":"2.0","id":"s-1","result":{"content":[{"type":"text","text":"hi"},{"type":"image","data":"AQID","mimeType":"image/png"}],"isError":false}}`,
+	`{"jsonrpc":"2.0","id":9007199254740993,"error":{"code":-32601,"message":"method not found","data":{"m":"x"}}}`,
+	`[{"jsonrpc":"2.0","id":1,"method":"ping"},{"jsonrpc":"2.0","method":"notifications/initialized"}]`,
+	`{"content":[{"type":"tool_result","toolUseId":"u","content":[{"type":"resource","resource":{"uri":"file:///x","blob":"AQID"}}],"structuredContent":[1,2]}]}`,
+	`{"type":"resource_link","uri":"file:///x","name":"n","size":12,"icons":[{"src":"https://e/x.png","sizes":["48x48"]}],"annotations":{"audience":["user"],"priority":1}}`,
+	"event: message\nid: s_12\ndata: {\"jsonrpc\":\"2.0\",\"id\":1,\"result\":{}}\n\n: comment\nretry: 100\ndata: a\ndata: b\n\n",
+	`{"name":"t","arguments":{"x":1},"_meta":{"progressToken":1,"io.modelcontextprotocol/protocolVersion":"2026-07-28"}}`,
+}
+
+func c19GenInput(r *rand.Rand, gen string) []byte {
+	switch gen {
+	case "random":
+		b := make([]byte, r.IntN(80))
+		for i := range b {
+			b[i] = byte(r.IntN(256))
+		}
+		return b
+	case "jsonish":
+		toks := []string{"{", "}", "[", "]", ":", ",", `"`, `"jsonrpc"`, `"2.0"`, `"id"`, `"method"`, `"params"`, `"result"`, `"error"`, `"code"`, `"message"`, `"data"`,
+			`"type"`, `"text"`, `"content"`, `"tool_result"`, "null", "true", "1", "-0", "1e999", "9223372036854775808", "0.5", `"\ud800"`, `"\u0000"`, " ", "\n", "\\", "\xff", "data:", "id:", "event:", "\r\n"}
+		var b strings.Builder
+		for i, n := 0, r.IntN(40); i < n; i++ {
+			b.WriteString(c19Pick(r, toks...))
+		}
+		return []byte(b.String())
+	case "mutated":
+		b := []byte(c19Pick(r, c19Corpus...))
+		for i, n := 0, 1+r.IntN(4); i < n && len(b) > 0; i++ {
+			p := r.IntN(len(b))
+			switch r.IntN(6) {
+			case 0:
+				b[p] ^= 1 << r.IntN(8)
+			case 1:
+				b = append(b[:p], b[p+1:]...)
+			case 2:
+				b = append(b[:p], append([]byte{byte(r.IntN(256))}, b[p:]...)...)
+			case 3:
+				b = b[:p]
+			case 4:
+				q := r.IntN(len(b))
+				if p > q {
+					p, q = q, p
+				}
+				b = append(b[:q], append(append([]byte{}, b[p:q]...), b[q:]...)...)
+			case 5:
+				b[p] = c19Pick(r, byte('{'), '}', '[', ']', '"', ':', ',', '\n', 0, 0xff, '\\')
+			}
+		}
+		return b
+	case "deep":
+		d := 1 << (4 + r.IntN(13)) // up to 65536 levels
+		open, cls := "[", "]"
+		if r.IntN(2) == 0 {
+			open, cls = `{"content":`, "}"
+		}
+		pre := c19Pick(r, "", `{"jsonrpc":"2.0","id":1,"result":`, `{"jsonrpc":"2.0","id":1,"method":"m","params":`, "data: ")
+		suf := ""
+		if strings.HasPrefix(pre, "{") {
+			suf = "}"
+		}
+		leaf := c19Pick(r, "1", "null", "", `"x"`)
+		return []byte(pre + strings.Repeat(open, d) + leaf + strings.Repeat(cls, d-r.IntN(2)) + suf)
+	}
+	panic("gen " + gen)
+}
+
+var c19Decoders = map[string]func([]byte) error{
+	"DecodeMessage": func(b []byte) error { _, err := jsonrpc.DecodeMessage(b); return err },
+	"readBatch":     func(b []byte) error { _, _, err := c19ReadBatch(b); return err },
+	"ioConn.Read": func(b []byte) error {
+		pr, pw := io.Pipe()
+		conn := c19NewIOConn(pr, nil)
+		go func() { pw.Write(b); pw.Close() }()
+		defer conn.Close()
+		ctx, cancel := context.WithTimeout(context.Background(), 10*time.Second)
+		defer cancel()
+		var first error
+		for i := 0; i < 200; i++ {
+			if _, err := conn.Read(ctx); err != nil {
+				if i == 0 {
+					first = err
+				}
+				break
+			}
+		}
+		return first
+	},
+	"scanEvents": func(b []byte) error {
+		var first error
+		n := 0
+		c19ScanEvents(bytes.NewReader(b), func(_ Event, err error) bool {
+			if err != nil && first == nil && n == 0 {
+				first = err
+			}
+			n++
+			return err == nil
+		})
+		return first
+	},
+	"unmarshalContent":    func(b []byte) error { _, err := c19UnmarshalContent(b); return err },
+	"CallToolResult":      func(b []byte) error { return internaljson.Unmarshal(b, &CallToolResult{}) },
+	"GetPromptResult":     func(b []byte) error { return internaljson.Unmarshal(b, &GetPromptResult{}) },
+	"CreateMessageResult": func(b []byte) error { return internaljson.Unmarshal(b, &CreateMessageWithToolsResult{}) },
+	"params:tools/call":   func(b []byte) error { _, err := c19ServerParams("tools/call", b); return err },
+	"params:initialize":   func(b []byte) error { _, err := c19ServerParams("initialize", b); return err },
+}
+
+func c19Fuzz(r *rand.Rand, total int, emit func(any)) {
+	var decs []string
+	for k := range c19Decoders {
+		decs = append(decs, k)
+	}
+	sort.Strings(decs)
+	gens := []string{"random", "jsonish", "mutated", "deep"}
+	per := total / (len(decs) * len(gens))
+	if per < 1 {
+		per = 1
+	}
+	for _, d := range decs {
+		for _, g := range gens {
+			n := per
+			if g == "deep" {
+				n = per/20 + 1
+			}
+			out := c19FuzzOut{K: "fuzz", Dec: d, Gen: g, N: n}
+			for i := 0; i < n; i++ {
+				in := c19GenInput(r, g)
+				func() {
+					defer func() {
+						if p := recover(); p != nil {
+							out.Panics++
+							if out.Sample == "" {
+								out.Sample = fmt.Sprintf("%.300q -> %.200v", in, p)
+							}
+						}
+					}()
+					if err := c19Decoders[d](in); err != nil {
+						out.Errors++
+					} else {
+						out.Values++
+					}
+				}()
+			}
+			emit(out)
+		}
+	}
+}
+
+// ---------------------------------------------------------------------------------------------
+
+func c19Load[T any](t *testing.T, dir, name string) []T {
+	f, err := os.Open(filepath.Join(dir, name))
+	if err != nil {
+		if os.IsNotExist(err) {
+			return nil
+		}
+		t.Fatal(err)
+	}
+	defer f.Close()
+	var out []T
+	sc := bufio.NewScanner(f)
+	sc.Buffer(make([]byte, 1<<16), 1<<22)
+	for sc.Scan() {
+		if len(bytes.TrimSpace(sc.Bytes())) == 0 {
+			continue
+		}
+		var c T
+		if err := json.Unmarshal(sc.Bytes(), &c); err != nil {
+			t.Fatalf("%s: bad case: %v", name, err)
+		}
+		out = append(out, c)
+	}
+	return out
+}
+
+// c19Par runs f over cases x reps on a few workers; every (case, rep) gets its own generator derived
+// from the seed and its index, so results do not depend on scheduling.  Results come back in order.
+type c19Res struct {
+	line    any
+	in, out string
+	detail  bool
+}
+
+func c19Par[C any](cases []C, reps int, seed, stream uint64, f func(r *rand.Rand, c C, rep int) c19Res) []c19Res {
+	out := make([]c19Res, len(cases)*reps)
+	workers, _ := strconv.Atoi(os.Getenv("VERIF_WORKERS"))
+	if workers < 1 {
+		workers = 4
+	}
+	idx := make(chan int, 256)
+	var wg sync.WaitGroup
+	for w := 0; w < workers; w++ {
+		wg.Add(1)
+		go func() {
+			defer wg.Done()
+			for i := range idx {
+				r := rand.New(rand.NewPCG(seed, stream<<32|uint64(i)))
+				out[i] = f(r, cases[i/reps], i%reps)
+			}
+		}()
+	}
+	for i := range out {
+		idx <- i
+	}
+	close(idx)
+	wg.Wait()
+	return out
+}
+
+func TestVerif_C19(t *testing.T) {
+	in, outp := os.Getenv("VERIF_IN"), os.Getenv("VERIF_OUT")
+	if in == "" || outp == "" {
+		t.Skip("VERIF_IN/VERIF_OUT not set")
+	}
+	seed, _ := strconv.ParseUint(os.Getenv("VERIF_SEED"), 10, 64)
+	reps, _ := strconv.Atoi(os.Getenv("VERIF_REPS"))
+	if reps == 0 {
+		reps = 1
+	}
+	nfuzz, _ := strconv.Atoi(os.Getenv("VERIF_FUZZ"))
+	fout, err := os.Create(outp)
+	if err != nil {
+		t.Fatal(err)
+	}
+	defer fout.Close()
+	w := bufio.NewWriterSize(fout, 1<<20)
+	defer w.Flush()
+	fdet, err := os.Create(outp + ".detail")
+	if err != nil {
+		t.Fatal(err)
+	}
+	defer fdet.Close()
+	wd := bufio.NewWriterSize(fdet, 1<<20)
+	defer wd.Flush()
+	line := 0
+	emit := func(v any) {
+		b, err := json.Marshal(v)
+		if err != nil {
+			t.Fatal(err)
+		}
+		w.Write(b)
+		w.WriteByte('\n')
+		line++
+	}
+	detail := func(in, out string) {
+		if !utf8.ValidString(in) {
+			in = strconv.QuoteToASCII(in)
+		}
+		b, _ := json.Marshal(map[string]any{"line": line, "in": in, "out": out})
+		wd.Write(b)
+		wd.WriteByte('\n')
+	}
+	ctx, cancel := context.WithTimeout(context.Background(), 20*time.Minute)
+	defer cancel()
+
+	t0 := time.Now()
+	// 1. messages
+	type msgLine struct {
+		K   string     `json:"k"`
+		C   c19MsgCase `json:"c"`
+		O   c19MsgOut  `json:"o"`
+		Rep int        `json:"rep"`
+	}
+	for _, x := range c19Par(c19Load[c19MsgCase](t, in, "cases_msg.ndjson"), reps, seed, 1, func(r *rand.Rand, c c19MsgCase, rep int) c19Res {
+		o, din, dout := c19RunMsg(r, c)
+		f := o.F
+		bad := !(f.IDType && f.IDValue && f.Method && f.Params && f.Result && f.ErrCode && f.ErrMsg && f.ErrData) || o.Frame != "ok" || !o.Evmeta
+		return c19Res{msgLine{"msg", c, o, rep}, din, dout, bad}
+	}) {
+		emit(x.line)
+		if x.detail {
+			detail(x.in, x.out)
+		}
+	}
+	t.Logf("msg done %v lines=%d", time.Since(t0), line)
+	// 2. wire shapes
+	type wireLine struct {
+		K   string      `json:"k"`
+		C   c19WireCase `json:"c"`
+		O   c19WireOut  `json:"o"`
+		Sib c19WireOut  `json:"sib"`
+		Rep int         `json:"rep"`
+	}
+	for _, x := range c19Par(c19Load[c19WireCase](t, in, "cases_wire.ndjson"), reps, seed, 2, func(r *rand.Rand, c c19WireCase, rep int) c19Res {
+		wire, sib, code, text := c19BuildWireShape(r, c)
+		o := c19DecodeShape(wire, code, text)
+		s := o
+		if c.Casing != "exact" {
+			s = c19DecodeShape(sib, code, text)
+		}
+		return c19Res{wireLine{"wire", c, o, s, rep}, string(wire), string(sib), rep == 0}
+	}) {
+		emit(x.line)
+		if x.detail {
+			detail(x.in, x.out)
+		}
+	}
+	t.Logf("wire done %v lines=%d", time.Since(t0), line)
+	// 3. values
+	type valLine struct {
+		K   string     `json:"k"`
+		C   c19ValCase `json:"c"`
+		O   c19ValOut  `json:"o"`
+		Rep int        `json:"rep"`
+	}
+	for _, x := range c19Par(c19Load[c19ValCase](t, in, "cases_val.ndjson"), reps, seed, 3, func(r *rand.Rand, c c19ValCase, rep int) (res c19Res) {
+		var o c19ValOut
+		var enc string
+		func() {
+			defer func() {
+				if p := recover(); p != nil {
+					o = c19ValOut{Lost: []string{fmt.Sprintf("panic: %v", p)}, Missing: []string{}}
+				}
+			}()
+			o, enc = c19RunVal(r, c)
+		}()
+		return c19Res{valLine{"val", c, o, rep}, enc, strings.Join(append(append([]string{}, o.Lost...), o.Missing...), ","), !o.OK || len(o.Lost) > 0 || len(o.Missing) > 0}
+	}) {
+		emit(x.line)
+		if x.detail {
+			detail(x.in, x.out)
+		}
+	}
+	t.Logf("val done %v lines=%d", time.Since(t0), line)
+	// 4. required members in what real sessions send
+	type reqLine struct {
+		K string     `json:"k"`
+		C c19ReqCase `json:"c"`
+		O c19ReqOut  `json:"o"`
+	}
+	if reqCases := c19Load[c19ReqCase](t, in, "cases_req.ndjson"); len(reqCases) > 0 {
+		sess := map[string]*c19Sess{}
+		for _, proto := range []string{c19Proto2025, "latest"} {
+			for _, feat := range []string{"bare", "full"} {
+				s, err := c19NewSess(ctx, proto, feat == "full")
+				if err != nil {
+					t.Fatalf("session %s/%s: %v", proto, feat, err)
+				}
+				defer s.close()
+				sess[proto+"/"+feat] = s
+			}
+		}
+		for i, c := range reqCases {
+			cctx, ccancel := context.WithTimeout(ctx, 15*time.Second)
+			o, sent := c19RunReq(cctx, sess, c, i)
+			ccancel()
+			emit(reqLine{"req", c, o})
+			detail(c.Type+"/"+c.Fill+"/"+c.Proto, sent)
+		}
+	}
+	// 5. case sensitivity of value decoders
+	type vcLine struct {
+		K   string    `json:"k"`
+		C   c19VcCase `json:"c"`
+		O   c19VcOut  `json:"o"`
+		Rep int       `json:"rep"`
+	}
+	if vcCases := c19Load[c19VcCase](t, in, "cases_vc.ndjson"); len(vcCases) > 0 {
+		peer, err := c19NewPeer(ctx)
+		if err != nil {
+			t.Fatalf("peer: %v", err)
+		}
+		defer peer.cs.Close()
+		r := rand.New(rand.NewPCG(seed, 19191919))
+		for _, c := range vcCases {
+			for rep := 0; rep < 4*reps; rep++ {
+				cctx, ccancel := context.WithTimeout(ctx, 15*time.Second)
+				o, variant := c19RunVc(cctx, r, peer, c)
+				ccancel()
+				emit(vcLine{"vc", c, o, rep})
+				detail(variant, "")
+			}
+		}
+	}
+	t.Logf("req+vc done %v lines=%d", time.Since(t0), line)
+	// 6. arbitrary bytes
+	if nfuzz > 0 {
+		c19Fuzz(rand.New(rand.NewPCG(seed, 1900)), nfuzz, emit)
+	}
+	t.Logf("all done %v lines=%d", time.Since(t0), line)
 }
